@@ -1,15 +1,53 @@
 /-
   Line-protocol driver: one JSON object per input line `{"op": "Cxx.name", ...}`, one JSON line
   back: `{"ok": <result>}` or `{"err": "<message>"}`.
-  Imports the executable model only (core Lean, no Mathlib, no generated tables).
-  Run with `lake env lean --run Main.lean`.
+  Imports the executable model only (core Lean, no Mathlib, no generated tables), so that it can be
+  compiled (`lake build driver`) and still works when a generated table or a theorem is broken.
 -/
 import PandoraModel.Driver.C01
+import PandoraModel.Driver.C02
+import PandoraModel.Driver.C03
+import PandoraModel.Driver.C04
+import PandoraModel.Driver.C05
+import PandoraModel.Driver.C06
+import PandoraModel.Driver.C07
+import PandoraModel.Driver.C08
+import PandoraModel.Driver.C09
+import PandoraModel.Driver.C10
+import PandoraModel.Driver.C11
+import PandoraModel.Driver.C12
+import PandoraModel.Driver.C13
+import PandoraModel.Driver.C14
+import PandoraModel.Driver.C15
+import PandoraModel.Driver.C16
+import PandoraModel.Driver.C17
+import PandoraModel.Driver.C18
+import PandoraModel.Driver.C19
+import PandoraModel.Driver.C20
 
 open Lean (Json)
 
 def dispatch (op : String) (j : Json) : Except String Json :=
   if op.startsWith "C01." then Pandora.Driver.C01.handle op j
+  else if op.startsWith "C02." then Pandora.Driver.C02.handle op j
+  else if op.startsWith "C03." then Pandora.Driver.C03.handle op j
+  else if op.startsWith "C04." then Pandora.Driver.C04.handle op j
+  else if op.startsWith "C05." then Pandora.Driver.C05.handle op j
+  else if op.startsWith "C06." then Pandora.Driver.C06.handle op j
+  else if op.startsWith "C07." then Pandora.Driver.C07.handle op j
+  else if op.startsWith "C08." then Pandora.Driver.C08.handle op j
+  else if op.startsWith "C09." then Pandora.Driver.C09.handle op j
+  else if op.startsWith "C10." then Pandora.Driver.C10.handle op j
+  else if op.startsWith "C11." then Pandora.Driver.C11.handle op j
+  else if op.startsWith "C12." then Pandora.Driver.C12.handle op j
+  else if op.startsWith "C13." then Pandora.Driver.C13.handle op j
+  else if op.startsWith "C14." then Pandora.Driver.C14.handle op j
+  else if op.startsWith "C15." then Pandora.Driver.C15.handle op j
+  else if op.startsWith "C16." then Pandora.Driver.C16.handle op j
+  else if op.startsWith "C17." then Pandora.Driver.C17.handle op j
+  else if op.startsWith "C18." then Pandora.Driver.C18.handle op j
+  else if op.startsWith "C19." then Pandora.Driver.C19.handle op j
+  else if op.startsWith "C20." then Pandora.Driver.C20.handle op j
   else if op == "ping" then .ok (Json.str "pong")
   else .error s!"unknown op {op}"
 
